@@ -1093,6 +1093,8 @@ impl<'a> JitMemory<'a> {
         let mut jit = JitCompiler::new();
         jit.jit_compile(&mut mem, prog, use_mbuff, update_data_ptr, helpers)?;
         jit.resolve_jumps(&mut mem)?;
+        #[cfg(rbpf_verif)]
+        crate::verif::record_jit(mem.contents[..mem.offset].to_vec(), jit.pc_locs.clone(), mem.contents.as_ptr() as usize);
 
         Ok(mem)
     }
@@ -1135,6 +1137,8 @@ impl<'a> JitMemory<'a> {
         let mut jit = JitCompiler::new();
         jit.jit_compile(&mut mem, prog, use_mbuff, update_data_ptr, helpers)?;
         jit.resolve_jumps(&mut mem)?;
+        #[cfg(rbpf_verif)]
+        crate::verif::record_jit(mem.contents[..mem.offset].to_vec(), jit.pc_locs.clone(), mem.contents.as_ptr() as usize);
 
         Ok(mem)
     }
